@@ -8,6 +8,8 @@
     verify <sc> <arity> <vararg> <nc> <nd> <ne> <hex of u32 LE words> -> error code of the janet_verify model (0 = accepted)
     vmguards                                      -> "ok" | "bad <handler:expr>..." (value-dependent dereferences of vm.c without a dominating run-time test)
     umsites                                       -> "ok" | "bad <site>..."       (read sites of marsh.c whose test does not dominate the reads)
+    ums [<hex>]                                   -> as `um` + " L=<types of the reference table> E=<envs> D=<defs>:<done flags>" (internal state)
+    ums [<hex>]                                   -> as `um` + " L=<types of the reference table> E=<envs> D=<defs>:<done flags>" (internal state)
     um [<hex>]                                    -> "acc <consumed> <type>" | "rej <class>" | "oob <site>" | "fuel"
                                                      (byte-level unmarshal model with the sites of the current source)
 -/
@@ -54,8 +56,24 @@ def runUm (bs : List Nat) : String :=
   | .oob site => s!"oob {site}"
   | .fuel => "fuel"
 
+/-- result + internal state after the top-level value: types of the reference table, counts of the env / def tables -/
+def runUms (bs : List Nat) : String :=
+  let C := JanetModel.Unmarsh.Bytes.cfg
+  match JanetModel.Unmarsh.Bytes.unmarshal C bs.toArray (JanetModel.Unmarsh.Bytes.fuelBound C) with
+  | .ok v c =>
+    s!"acc {c.pos} {typeName v} L={",".intercalate (c.st.lookup.toList.map typeName)} E={c.st.nenvs} D={c.st.defs.size}:" ++
+      String.join (c.st.defs.toList.map fun d => if d.done then "1" else "0")
+  | .err e => "rej " ++ (reprStr e).replace "JanetModel.Unmarsh.Bytes.Err." ""
+  | .oob site => s!"oob {site}"
+  | .fuel => "fuel"
+
 def step (_ : Unit) (toks : List String) : Unit × String :=
   match toks with
+  | ["ums"] => ((), runUms [])
+  | ["ums", h] =>
+    match bytesOfHex h with
+    | some bs => ((), runUms bs)
+    | none => ((), "bad-op")
   | ["umsites"] =>
     let C := JanetModel.Unmarsh.Bytes.cfg
     let bad := C.sites.bad ++ (if C.refChecked then [] else ["lookup[len]"]) ++ (if C.envRefChecked then [] else ["lookup_envs[index]"]) ++
